@@ -7,6 +7,7 @@ import (
 	"encoding/hex"
 	"fmt"
 	"sort"
+	"strconv"
 	"strings"
 	"sync"
 
@@ -323,7 +324,7 @@ func RawFromBytes(b []byte) (rec Rec, id Ident, stages int, err error) {
 	rec.Ip, rec.Rp = fBool(n, "InitiatorPaused"), fBool(n, "ResponderPaused")
 	rec.Queued, rec.Sent, rec.Received = fUint(n, "Queued"), fUint(n, "Sent"), fUint(n, "Received")
 	rec.QIdx, rec.SIdx, rec.RIdx = fInt(n, "QueuedBlocksTotal"), fInt(n, "SentBlocksTotal"), fInt(n, "ReceivedBlocksTotal")
-	rec.Limit, rec.ReqFin, rec.Msg = fUint(n, "DataLimit"), fBool(n, "RequiresFinalization"), fStr(n, "Message")
+	rec.Limit, rec.ReqFin, rec.Msg = fUint(n, "DataLimit"), fBool(n, "RequiresFinalization"), ShortMsg(fStr(n, "Message"))
 	rec.Vouchers, rec.Results = []string{}, []string{}
 	vs := mustField(n, "Vouchers")
 	for it := vs.ListIterator(); it != nil && !it.Done(); {
@@ -490,7 +491,7 @@ func Project(st datatransfer.ChannelState) View {
 	try("ReceivedCidsTotal", p, func() { v.RIdx = st.ReceivedCidsTotal() })
 	try("DataLimit", p, func() { v.Limit = st.DataLimit() })
 	try("RequiresFinalization", p, func() { v.ReqFin = st.RequiresFinalization() })
-	try("Message", p, func() { v.Msg = st.Message() })
+	try("Message", p, func() { v.Msg = ShortMsg(st.Message()) })
 	try("Vouchers", p, func() {
 		for _, tv := range st.Vouchers() {
 			v.Vouchers = append(v.Vouchers, VoucherName(tv))
@@ -525,4 +526,21 @@ func Project(st datatransfer.ChannelState) View {
 		}
 	})
 	return v
+}
+
+// Long texts (codec boundary inputs): an operation argument "@long:N" stands for a text of N bytes; wherever a message
+// is projected for the judges, a text longer than 300 bytes is shown as "@long:<its length>".
+func ExpandText(s string) string {
+	if strings.HasPrefix(s, "@long:") {
+		if n, err := strconv.Atoi(s[len("@long:"):]); err == nil && n >= 0 && n <= 1<<22 {
+			return strings.Repeat("x", n)
+		}
+	}
+	return s
+}
+func ShortMsg(s string) string {
+	if len(s) > 300 {
+		return "@long:" + strconv.Itoa(len(s))
+	}
+	return s
 }
